@@ -567,9 +567,19 @@ func (x *FnExec) convert(in *ssa.Convert, st *State) Val {
 		return x.freshVal("fconv", to, true)
 	case isStringT(to) && fromInt:
 		return IntV(app("uf1", "1001", a.T))
-	case isStringT(to) || isStringT(from):
-		// []byte <-> string: an injective uninterpreted bridge is not needed by any contract; unknown
-		x.ctx.Note("string/[]byte conversion abstracted to an unknown")
+	case isStringT(from):
+		// string -> []byte: the content is not modelled; the new slice remembers which string it
+		// was made from (uf_strOfBytes(ptr, len) == the string), so contracts can follow a
+		// denomination through key building
+		v := x.freshVal("sconv", to, true)
+		if fl := v.Flatten(); len(fl) == 3 && !a.IsComp() {
+			f := x.ctx.UF("uf_strOfBytes", 2, false)
+			x.ctx.Assert(Implies(st.reach, Eq(app(f, fl[0].T, fl[1].T), a.T)))
+		}
+		x.ctx.Note("string -> []byte conversion: content abstracted, origin remembered")
+		return v
+	case isStringT(to):
+		x.ctx.Note("[]byte -> string conversion abstracted to an unknown")
 		return x.freshVal("sconv", to, true)
 	}
 	if len(x.mem.Leaves(from)) == len(x.mem.Leaves(to)) {
